@@ -2,7 +2,7 @@ import IastModel.Lemmas.CqTr
 namespace IastModel
 open Node
 
-def OcPostC (q : Node → Bool) (n : Node) (oc : OcSt) (R : (Node × OcSt) × St) : Prop :=
+def OcPostQ (q : Node → Bool) (n : Node) (oc : OcSt) (R : (Node × OcSt) × St) : Prop :=
   cq q R.1.1 + cqL q R.1.2.assignments = cq q n + cqL q oc.assignments ∧ OcInv R.1.2
 
 theorem getCallFromBaseCall_Q (q : Node → Bool) (callee : Node) (args : List Node) (optional : Bool) (oc : OcSt) (s : St)
@@ -87,9 +87,9 @@ namespace IastModel
 open Node
 
 theorem ocSpine_Q (q : Node → Bool) (v : Node → OcM Node)
-    (hv : ∀ e oc s, ns e = 0 → OcZ oc → OcInv oc → OcPostC q e oc (v e oc s) ∧ OcPost (v e oc s) s)
+    (hv : ∀ e oc s, ns e = 0 → OcZ oc → OcInv oc → OcPostQ q e oc (v e oc s) ∧ OcPost (v e oc s) s)
     (e : Node) (oc : OcSt) (s : St) (h0 : ns e = 0) (hz : OcZ oc) (hi : OcInv oc) :
-    OcPostC q e oc (ocSpine v e oc s) := by
+    OcPostQ q e oc (ocSpine v e oc s) := by
   unfold ocSpine
   split
   · rename_i o callee args csp sp
@@ -137,7 +137,7 @@ theorem ocSpine_Q (q : Node → Bool) (v : Node → OcM Node)
   · simp only [oc_pure]; exact ⟨rfl, hi⟩
 
 theorem ocVisit_Q (q : Node → Bool) (cfg : Config) : ∀ (f : Nat) (n : Node) (oc : OcSt) (s : St),
-    ns n = 0 → OcZ oc → OcInv oc → OcPostC q n oc (ocVisit cfg f n oc s) := by
+    ns n = 0 → OcZ oc → OcInv oc → OcPostQ q n oc (ocVisit cfg f n oc s) := by
   intro f
   induction f with
   | zero =>
@@ -146,13 +146,13 @@ theorem ocVisit_Q (q : Node → Bool) (cfg : Config) : ∀ (f : Nat) (n : Node) 
     exact ⟨rfl, hi⟩
   | succ f ih =>
     intro n oc s h hz hi
-    have hv : ∀ e oc s, ns e = 0 → OcZ oc → OcInv oc → OcPostC q e oc (ocVisit cfg f e oc s) ∧ OcPost (ocVisit cfg f e oc s) s :=
+    have hv : ∀ e oc s, ns e = 0 → OcZ oc → OcInv oc → OcPostQ q e oc (ocVisit cfg f e oc s) ∧ OcPost (ocVisit cfg f e oc s) s :=
       fun e oc s h0 hz hi => ⟨ih e oc s h0 hz hi, ocVisit_z cfg f e oc s h0 hz⟩
     unfold ocVisit
     split
     · rename_i optional base sp
       rw [oc_bind, oc_get]
-      show OcPostC q _ oc ((ite (oc.found = true) _ _ : OcM Node) oc s)
+      show OcPostQ q _ oc ((ite (oc.found = true) _ _ : OcM Node) oc s)
       by_cases hf : oc.found = true
       · rw [if_pos hf]
         have key : ∀ (m : OcM (Option Node)),
@@ -160,7 +160,7 @@ theorem ocVisit_Q (q : Node → Bool) (cfg : Config) : ∀ (f : Nat) (n : Node) 
               ((m oc s).1.1 = none → cqL q (m oc s).1.2.assignments = cqL q oc.assignments) ∧
               (∀ r, (m oc s).1.1 = some r → ns r = 0 ∧
                 cq q r + cqL q (m oc s).1.2.assignments = cq q (Node.optChain optional base sp) + cqL q oc.assignments)) →
-            OcPostC q (Node.optChain optional base sp) oc ((do
+            OcPostQ q (Node.optChain optional base sp) oc ((do
               let r ← m
               if optional = true then pure (r.getD (optChain optional base sp))
               else ocSpine (ocVisit cfg f) (r.getD (optChain optional base sp)) : OcM Node) oc s) := by
@@ -208,7 +208,7 @@ theorem toDdCond_Q (q : Node → Bool) (cfg : Config) (fuel : Nat) (e : Node) (s
     cq q ((toDdCond cfg fuel e s).1.2.getD (toDdCond cfg fuel e s).1.1) = cq q e := by
   unfold toDdCond
   simp only [run_bind]
-  have hv : OcPostC q e {} (StateT.run (ocVisit cfg fuel e) {} s) := ocVisit_Q q cfg fuel e {} s h rfl (Or.inl rfl)
+  have hv : OcPostQ q e {} (StateT.run (ocVisit cfg fuel e) {} s) := ocVisit_Q q cfg fuel e {} s h rfl (Or.inl rfl)
   generalize (StateT.run (ocVisit cfg fuel e) {} s) = X at hv ⊢
   obtain ⟨⟨e', oc⟩, s'⟩ := X
   obtain ⟨h1, h2⟩ := hv
